@@ -75,7 +75,7 @@ enum Item { Elem(usize), Prop(usize) }
 
 /// what one built store knows about the names of the case
 #[derive(Default)]
-struct Built { ids: BTreeMap<String, String>, schema_refs: BTreeMap<String, String>, prop_ids: Vec<Option<String>>, seq_mid: Vec<u64>, seq_end: Vec<u64> }
+struct Built { ids: BTreeMap<String, String>, schema_refs: BTreeMap<String, String>, prop_ids: Vec<Option<String>>, seq_mid: Vec<u64>, seq_end: Vec<u64>, replayed: Vec<bool> }
 
 async fn seq_now(owner: &Session) -> Result<u64, String> {
     let r = exec(owner, "SNAPSHOT", None).await;
@@ -116,7 +116,8 @@ async fn classify(owner: &Session, id: &str, class: &str) -> Result<(), String> 
 
 /// canonical text of a response: rows / hit names in order, error code, whether a cursor follows
 fn canon_history(v: &Value, ids: &BTreeMap<String, String>) -> Option<String> {
-    let arr = v.as_array()?;
+    let single;
+    let arr = match v { Value::Object(o) if o.contains_key("changes") && o.contains_key("tx_id") => { single = vec![v.clone()]; &single } _ => v.as_array()? };
     if arr.is_empty() || !arr.iter().all(|e| e.get("changes").is_some() && e.get("tx_id").is_some()) { return None; }
     let name_of = |id: &str| ids.iter().find(|(_, v)| v.as_str() == id).map(|(k, _)| k.clone()).unwrap_or_else(|| format!("<{id}>"));
     let entries: Vec<String> = arr.iter().map(|e| {
@@ -149,6 +150,13 @@ fn canon(r: &Response, ids: &BTreeMap<String, String>) -> String {
 
 fn subst_seqs(text: &str, b: &Built) -> String {
     let mut t = text.to_string();
+    // <<tx:K>>: the transaction that created the element of step K in this store (an id nobody issued when it was not replayed)
+    while let Some(i) = t.find("<<tx:") {
+        let j = t[i..].find(">>").map(|j| i + j).unwrap_or(t.len() - 2);
+        let k: usize = t[i + 5..j].parse().unwrap_or(0);
+        let v = match (b.replayed.get(k), b.seq_mid.get(k)) { (Some(true), Some(s)) => format!("kip:space:default#{s}"), _ => "kip:space:default#987654".to_string() };
+        t.replace_range(i..j + 2, &v);
+    }
     for (tag, table) in [("<<seqmid:", &b.seq_mid), ("<<seq:", &b.seq_end)] {
         while let Some(i) = t.find(tag) {
             let j = t[i..].find(">>").map(|j| i + j).unwrap_or(t.len() - 2);
@@ -214,6 +222,7 @@ pub async fn run(ops: &[String], model: &mut Option<ModelProc>) -> Result<CaseOu
                 s.seq_mid.push(seq_now(&s_owner).await?);
                 classify(&s_owner, &id, &e.class).await?;
                 s.seq_end.push(seq_now(&s_owner).await?);
+                s.replayed.push(true);
                 let el = s_nexus.store.get_element(id.parse().map_err(|_| "id")?).await.map_err(|e| format!("{e:?}"))?;
                 s.schema_refs.insert(e.name.clone(), el.schema_ref().to_string());
                 s.ids.insert(e.name.clone(), id);
@@ -226,6 +235,7 @@ pub async fn run(ops: &[String], model: &mut Option<ModelProc>) -> Result<CaseOu
                 s.seq_mid.push(seq_now(&s_owner).await?);
                 classify(&s_owner, &id, &p.class).await?;
                 s.seq_end.push(seq_now(&s_owner).await?);
+                s.replayed.push(true);
                 s.prop_ids.push(Some(id));
             }
         }
@@ -359,6 +369,7 @@ pub async fn run(ops: &[String], model: &mut Option<ModelProc>) -> Result<CaseOu
                 rs.seq_mid.push(seq_now(&r_owner).await?);
                 classify(&r_owner, &id, &e.class).await?;
                 rs.seq_end.push(seq_now(&r_owner).await?);
+                rs.replayed.push(true);
                 rs.ids.insert(e.name.clone(), id);
             }
             Item::Prop(i) if prop_readable[*i] && closed => {
@@ -368,10 +379,11 @@ pub async fn run(ops: &[String], model: &mut Option<ModelProc>) -> Result<CaseOu
                     rs.seq_mid.push(seq_now(&r_owner).await?);
                     classify(&r_owner, &id, &p.class).await?;
                     rs.seq_end.push(seq_now(&r_owner).await?);
+                    rs.replayed.push(true);
                     rs.ids.insert(format!("prop{i}"), id);
-                } else { rs.seq_mid.push(before); rs.seq_end.push(before); }
+                } else { rs.seq_mid.push(before); rs.seq_end.push(before); rs.replayed.push(false); }
             }
-            _ => { rs.seq_mid.push(before); rs.seq_end.push(before); }
+            _ => { rs.seq_mid.push(before); rs.seq_end.push(before); rs.replayed.push(false); }
         }
     }
     // names of Propositions in S, for the history canonicaliser
@@ -380,7 +392,7 @@ pub async fn run(ops: &[String], model: &mut Option<ModelProc>) -> Result<CaseOu
     // ---- the battery ------------------------------------------------------------------------------
     let mut any_nonempty = false;
     for (page, text) in &queries {
-        let touches_props = text.contains("PROPOSITION") || text.contains("COGNITION") || text.starts_with("HISTORY") || text.starts_with("CHANGES") || text.starts_with("EXPORT");
+        let touches_props = text.contains("PROPOSITION") || text.contains("COGNITION") || text.starts_with("HISTORY") || text.starts_with("CHANGES") || text.starts_with("EXPORT") || text.starts_with("DESCRIBE TRANSACTION");
         if touches_props && !closed { continue; }
         // with `name` masked the rows of this query carry no names, so a difference could not be attributed: abstain
         if text.contains("<<seqmid:") && mask == "name" { out.hits.push("nonint:abstain-as-of-mid-with-masked-name".into()); continue; }
@@ -440,9 +452,11 @@ pub async fn run(ops: &[String], model: &mut Option<ModelProc>) -> Result<CaseOu
                 else if extra.is_empty() && !missing.is_empty() && missing.iter().all(|n| relabelled(n)) { "nonint:as-of:past-version-hidden-by-its-old-label".to_string() }
                 else if !extra.is_empty() && !missing.is_empty() && extra.iter().chain(missing.iter()).all(|n| relabelled(n)) { "nonint:as-of:later-reclassified-element-readable-in-the-past".to_string() }
                 else { generic("as-of") }
+            } else if text.starts_with("DESCRIBE TRANSACTION") && cb == "err:TransactionUnknown" && ca.starts_with("ok history{") {
+                "nonint:describe-transaction:names-changes-of-hidden-elements".to_string()
             } else if mask == "name" && text.contains("CONCEPT {name: \"") && cb.starts_with("ok [] ") { "nonint:find:index-matcher-on-masked-name".to_string() }
             else {
-                let kind = if text.starts_with("EXPORT") { "export" } else if text.contains(" AS OF ") { "as-of" } else if text.starts_with("HISTORY") || text.starts_with("CHANGES") { "history" } else if text.contains("COUNT(") { "count" } else if text.contains("ORDER BY") { "order" } else { "find" };
+                let kind = if text.starts_with("EXPORT") { "export" } else if text.contains(" AS OF ") { "as-of" } else if text.starts_with("DESCRIBE TRANSACTION") { "describe-transaction" } else if text.starts_with("PREVIEW") { "preview" } else if text.starts_with("HISTORY") || text.starts_with("CHANGES") { "history" } else if text.contains("SUM(") || text.contains("AVG(") || text.contains("MAX(") || text.contains("MIN(") { "aggregate" } else if text.contains("COUNT(") { "count" } else if text.contains("ORDER BY") { "order" } else { "find" };
                 generic(kind)
             };
             let mut ctx: Vec<String> = ops.iter().filter(|o| !o.starts_with("q ") && !o.starts_with("page ")).cloned().collect();
@@ -549,6 +563,16 @@ pub fn gen_case(r: &mut Rng) -> Vec<String> {
         format!("q SEARCH CONCEPT \"n{probe:02}\""),
         "q EXPORT CAPSULE ?c WHERE { ?c CONCEPT {} }".to_string(),
         "q HISTORY SPACE".to_string(),
+        "page 2 HISTORY SPACE".to_string(),
+        "page 3 CHANGES AFTER SEQ 0".to_string(),
+        format!("q HISTORY ELEMENT \"<<id:n{:02}>>\"", r.usize(n)),
+        format!("q DESCRIBE TRANSACTION \"<<tx:{}>>\"", r.usize(n)),
+        format!("q DESCRIBE TRANSACTION \"<<tx:{}>>\"", r.usize(n)),
+        "q FIND(COUNT(?c), SUM(?c.attributes.rank), MIN(?c.attributes.rank), MAX(?c.attributes.rank)) WHERE { ?c CONCEPT {} }".to_string(),
+        "q FIND(AVG(?c.attributes.rank)) WHERE { ?c CONCEPT {type: \"Person\"} }".to_string(),
+        "q FIND(COUNT(DISTINCT ?c.attributes.tag)) WHERE { ?c CONCEPT {} }".to_string(),
+        format!("page 2 FIND(?c.name, ?c.attributes.tag) WHERE {{ ?c CONCEPT {{}} FILTER(?c.attributes.rank >= {}) }} ORDER BY ?c.attributes.tag DESC", r.range(0, 5)),
+        "q SEARCH COGNITION \"prefers\"".to_string(),
         "q CHANGES AFTER SEQ 0".to_string(),
         format!("q FIND(?c.name) WHERE {{ ?c CONCEPT {{}} }} AS OF SEQ <<seq:{}>> ORDER BY ?c.name", r.usize(n)),
         format!("q FIND(COUNT(?c)) WHERE {{ ?c CONCEPT {{type: \"Person\"}} }} AS OF SEQ <<seq:{}>>", r.usize(n)),
